@@ -78,7 +78,19 @@ def run_case(rs, ctx):
             hist += gen.gen_ops(rs, cfg, sh, int(rs.integers(1, 4)), ["predict", "predict_expectations"])
     else:
         hist += gen.gen_ops(rs, cfg, sh, int(rs.integers(0, 3)), ["add_arm", "remove_arm"])
-    cont = gen.gen_continuation(rs, cfg, sh) if sh.fitted else \
+    late_binarizer = None
+    if l == "ts" and binz is None and sh.fitted and not gen.has_probs(cfg) and rs.integers(2):
+        # the binarizer arrives with add_arm: afterwards non-binary rewards are legal
+        late_binarizer = gen.pick(rs, ["thr_inside", "thr_three", "thr_half"])
+        o = gen.gen_ops(rs, cfg, sh, 1, ["add_arm"])
+        if o:
+            o[0]["binarizer"] = late_binarizer
+            hist += o
+            cfg = copy.deepcopy(cfg)
+        else:
+            late_binarizer = None
+    cfg_cont = cfg if late_binarizer is None else dict(cfg, lp=dict(cfg["lp"], binarizer=late_binarizer))
+    cont = gen.gen_continuation(rs, cfg_cont, sh) if sh.fitted else \
         gen.gen_ops(rs, cfg, sh, 1, ["fit"], train_rows=(5, 12)) + gen.gen_continuation(rs, cfg, sh)
     M = gen.build(cfg)
     wit = {"cfg": cfg, "history": hist, "copy_point": point, "method": method, "continuation": cont}
